@@ -37,14 +37,14 @@ func makeRequest(method, target, body string, api bool) (*http.Request, error) {
 		b.WriteString("Content-Type: " + ct + "\r\nContent-Length: " + strconv.Itoa(len(body)) + "\r\n")
 	}
 	b.WriteString("\r\n" + body)
-	return http.ReadRequest(bufio.NewReader(strings.NewReader(b.String())))
+	return http.ReadRequest(bufio.NewReaderSize(strings.NewReader(b.String()), 256))
 }
 
 type reqSnap struct {
 	Method, URL, Path, RawPath, RawQuery, Proto, Host, RequestURI string
-	Header                                                         http.Header
-	ContentLength                                                  int64
-	Body                                                           string
+	Header                                                        http.Header
+	ContentLength                                                 int64
+	Body                                                          string
 }
 
 func snapshot(r *http.Request, body string) reqSnap {
@@ -273,8 +273,10 @@ func normHeader(h http.Header) http.Header {
 }
 
 func sameObs(a, b obs) bool {
-	return a.Status == b.Status && a.Body == b.Body && a.Panic == b.Panic &&
-		reflect.DeepEqual(normHeader(a.Header), normHeader(b.Header)) && reflect.DeepEqual(a.Invoked, b.Invoked)
+	if a.Status != b.Status || a.Body != b.Body || a.Panic != b.Panic || len(a.Header) != len(b.Header) || len(a.Invoked) != len(b.Invoked) {
+		return false
+	}
+	return reflect.DeepEqual(normHeader(a.Header), normHeader(b.Header)) && reflect.DeepEqual(a.Invoked, b.Invoked)
 }
 
 func mediaType(h http.Header) string {
@@ -287,9 +289,9 @@ func mediaType(h http.Header) string {
 
 func short(s string) string {
 	if len(s) > 160 {
-		return s[:160] + "..."
+		s = s[:160] + "..."
 	}
-	return s
+	return strings.NewReplacer("\n", "\\n", "\r", "\\r", "\t", " ").Replace(s)
 }
 
 // jsUnescape undoes the escapes a JavaScript string literal may carry (\/ and \uXXXX, \xXX).
